@@ -155,7 +155,12 @@ def run(chk):
     chk.add("C13.E", "Ecube equality is derived over (vars, xnor)", PROVED if eqs and eqs[0]["impl"]["derived"] else UNDECIDED, "")
     ecube_small(chk, facts, vi, xi)
     # ------------------------------------------------------------------ Soes
-    reduction_rules(chk, facts, SOES, "or", "C13.S", "std::ops::BitOr")
+    Cs = reduction_rules(chk, facts, SOES, "or", "C13.S", "std::ops::BitOr")
+    # real XOR terms over a two-variable window: | denotes the OR of the operands (analysis/window.py)
+    from ..window import window_op, op_forms, pick_forms
+    for bd, label in pick_forms(op_forms(facts, "std::ops::BitOr", SOES), chk.tier):
+        for lens in ((1, 1), (2, 1), (1, 2), (0, 2), (2, 2)):
+            window_op(chk, "C13.R", facts, Cs, bd, label, lens, "or", "or", WN=2, sample=(lens == (2, 1)))
 
 
 def container_value_rule(chk, facts, C, op, rule, lens=(0, 1, 2, 3)):
@@ -173,17 +178,28 @@ def container_value_rule(chk, facts, C, op, rule, lens=(0, 1, 2, 3)):
             st = State()
             v0 = C.mk(st, 4, names)
             outs = it.call_body(b, [arg_for(b["sig"]["inputs"][0], v0, st), watoms(64, "m")], st, {})
-            o, v, d = single_return(outs)
-            if o is not None:
-                exp = ZERO
-                for nm in names:
-                    exp = red(exp, val_atom(nm, "m"))
-                r = o.value
-                if isinstance(r, W) and r.width == 1:
-                    v, d = compare_bits(r.all_bits(), [exp], o.pc)
-                    d = d and "value is not the %s of all term values: %s" % (op.upper(), d)
-                else:
-                    v, d = UNDECIDED, "result %r" % (r,)
+            exp = ZERO
+            for nm in names:
+                exp = red(exp, val_atom(nm, "m"))
+            rets = returns(outs)
+            if panics(outs) or not rets:
+                o, v, d = single_return(outs)
+            else:
+                # one or several paths (a counting / filtering formulation forks per term): each under its condition
+                v, d = PROVED, ""
+                for o in rets:
+                    if pc_status(o.pc)[0] == "unsat":
+                        continue
+                    r = o.value
+                    if isinstance(r, W) and r.width == 1:
+                        v1, d1 = compare_bits(r.all_bits(), [exp], o.pc)
+                        d1 = d1 and "value is not the %s of all term values: %s" % (op.upper(), d1)
+                    else:
+                        v1, d1 = UNDECIDED, "result %r" % (r,)
+                    if v1 != PROVED:
+                        v, d = v1, d1
+                        if v1 == REFUTED:
+                            break
         except Undecided as ex:
             v, d = UNDECIDED, ex.cause
         chk.add(rule, key, v, d, where=where_of(b), sample=dict(obligation=key, verdict=v) if L == 2 else None)
